@@ -38,10 +38,11 @@
 //   - Export returns within (everything the script can legitimately cost)
 //   - 10 s ("export_blocked_beyond_budget").
 //
-// Upper-bound timing clauses ("arrives after ...") are confirmed by re-running
-// the case twice more and are reported only if every run shows them: a real
-// defect is deterministic there (the waits involved are >= 200 ms), a stalled
-// machine is not.
+// Upper-bound timing clauses ("arrives after ...") are reported only if three
+// QUIET runs of the case show them (a canary goroutine measures how late 1 ms
+// timers fire while the case runs; a run with more than 25 ms of lateness is
+// discarded for this purpose; at most six runs): a real defect is deterministic
+// there (the waits involved are >= 200 ms), a starved process is not.
 //
 // Readings of the statement (conservative):
 //   - "exporter shut down": asserted relative to the moment Shutdown RETURNED.
@@ -114,7 +115,8 @@ const (
 	slackAfter    = 100 * time.Millisecond // arrival observed on another goroutine than cancel()/Shutdown()
 	slackElapsed  = 250 * time.Millisecond
 	blockMargin   = 10 * time.Second
-	shortTimeout  = 2000 // ms: timeouts up to this are "short" (may legitimately cut attempts)
+	quietJitter   = 25 * time.Millisecond // a run whose canary timers were later than this is "noisy"
+	shortTimeout  = 2000                  // ms: timeouts up to this are "short" (may legitimately cut attempts)
 	shutdownGrace = 50 * time.Millisecond
 )
 
@@ -406,6 +408,8 @@ func genCase(isGRPC bool) func(*rapid.T) Case {
 		case 3:
 			c.Plan = "cancel_in_attempt"
 			fast(0, 5000)
+			// with a long timeout only the cancellation can end the held attempt in time
+			c.TimeoutMS = oneOf(t, "timeout_ms", 0, 30000)
 		case 4:
 			c.Plan = "cancel_in_wait"
 			switch pick(t, "backoff", 40, 25, 35) {
@@ -587,12 +591,13 @@ type observation struct {
 	handled    []string
 	tag        string
 	setupErr   error
+	jitter     time.Duration // worst lateness of the canary's 1 ms timers during the run
 }
 
-func execute(c Case) observation {
+func execute(c Case) (ob observation) {
 	installHandler()
 	ex := exporters[c.Exporter]
-	ob := observation{cancelAt: -1, shutdownAt: -1}
+	ob = observation{cancelAt: -1, shutdownAt: -1}
 	ob.tag = fmt.Sprintf("c14-r%d", runSeq.Add(1))
 	col := newCollector(ex.signal, ex.grpc, c.Script, ob.tag)
 	var addr string
@@ -675,6 +680,31 @@ func execute(c Case) observation {
 			}
 		}
 	}
+
+	// Canary: how late do 1 ms timers fire in this process while the case
+	// runs? Upper-bound timing clauses are only meaningful on a quiet run.
+	canaryStop := make(chan struct{})
+	canaryDone := make(chan time.Duration, 1)
+	go func() {
+		var worst time.Duration
+		for {
+			select {
+			case <-canaryStop:
+				canaryDone <- worst
+				return
+			default:
+			}
+			t := time.Now()
+			time.Sleep(time.Millisecond)
+			if over := time.Since(t) - time.Millisecond; over > worst {
+				worst = over
+			}
+		}
+	}()
+	defer func() {
+		close(canaryStop)
+		ob.jitter = <-canaryDone
+	}()
 
 	type result struct {
 		err error
@@ -783,10 +813,16 @@ func evaluate(c Case, ob observation) []vk.Violation {
 			continue
 		}
 		prev := es[i-1]
-		switch prev.Outcome {
-		case oSuccess, oPartial:
+		// With a short per-request timeout (HTTP) the client may give up on
+		// an attempt while the collector's answer is in flight; what the
+		// collector "sent" is then not what the client saw, and the timeout is
+		// a network-level failure that may be retried.
+		sawAnswer := ex.grpc || !shortTO
+		switch {
+		case !sawAnswer:
+		case prev.Outcome == oSuccess || prev.Outcome == oPartial:
 			bad("retry_after_success", "attempt %d follows a success (%s)", i, prev.Desc)
-		case oNonRetryable:
+		case prev.Outcome == oNonRetryable:
 			bad("retry_after_nonretryable", "attempt %d follows a non-retryable answer (%s)", i, prev.Desc)
 		}
 		if !c.RetryEnabled {
@@ -795,7 +831,7 @@ func evaluate(c Case, ob observation) []vk.Violation {
 		if !bytes.Equal(e.Body, es[0].Body) && e.BodyErr == "" && es[0].BodyErr == "" {
 			bad("payload_differs", "attempt %d payload (%d bytes) differs from attempt 0 (%d bytes)", i, len(e.Body), len(es[0].Body))
 		}
-		if prev.Outcome == oRetryable && prev.Hint > 0 {
+		if prev.Outcome == oRetryable && prev.Hint > 0 && sawAnswer {
 			if gap := e.Arrive - prev.RespAt; gap < prev.Hint {
 				v := vk.V("retry_hint_not_honoured", "%s: attempt %d arrived %v after answer %d (%s) which asked for a delay of %v; collector log: %s",
 					c.Exporter, i, gap, i-1, prev.Desc, prev.Hint, describe(es))
@@ -948,28 +984,64 @@ func run(c Case) ([]vk.Violation, vk.Info) {
 	ob := execute(c)
 	vs := evaluate(c, ob)
 	info := classify(c, ob)
-	// Upper-bound timing clauses must reproduce in two more runs.
-	suspect := map[string]bool{}
+	info.ClassIf(ob.jitter > quietJitter, "noisy_run")
+
+	// Upper-bound timing clauses ("arrives after ...") are reported only when
+	// three QUIET runs of the case (canary timers at most quietJitter late)
+	// all show them; at most six runs are spent on that. The pre-cancelled
+	// clause is causal (cancel() returned before Export was called), no clock
+	// is involved, so it needs no confirmation.
+	timing := func(v vk.Violation) bool { return timingKinds[v.Kind] && c.Plan != "pre_cancelled" }
+	suspect := map[string]int{} // kind -> quiet runs that showed it
+	any := false
 	for _, v := range vs {
-		if timingKinds[v.Kind] && c.Plan != "pre_cancelled" {
-			suspect[v.Kind] = true
+		if timing(v) {
+			any = true
+			if ob.jitter <= quietJitter {
+				suspect[v.Kind] = 1
+			} else if _, ok := suspect[v.Kind]; !ok {
+				suspect[v.Kind] = 0
+			}
 		}
 	}
-	for r := 0; r < 2 && len(suspect) > 0; r++ {
-		again := map[string]bool{}
-		for _, v := range evaluate(c, execute(c)) {
-			again[v.Kind] = true
+	if any {
+		confirmed := func() bool {
+			for _, n := range suspect {
+				if n < 3 {
+					return false
+				}
+			}
+			return true
 		}
-		for k := range suspect {
-			if !again[k] {
+		for r := 1; r < 6 && len(suspect) > 0 && !confirmed(); r++ {
+			ob2 := execute(c)
+			if ob2.jitter > quietJitter {
+				info.Class("noisy_confirmation_run_discarded")
+				continue
+			}
+			again := map[string]bool{}
+			for _, v := range evaluate(c, ob2) {
+				again[v.Kind] = true
+			}
+			for k := range suspect {
+				if again[k] {
+					suspect[k]++
+				} else {
+					delete(suspect, k)
+					info.Class("timing_suspicion_not_reproduced")
+				}
+			}
+		}
+		for k, n := range suspect {
+			if n < 3 {
 				delete(suspect, k)
-				info.Class("timing_suspicion_not_reproduced")
+				info.Class("timing_suspicion_unconfirmed_noisy_machine")
 			}
 		}
 	}
 	var out []vk.Violation
 	for _, v := range vs {
-		if timingKinds[v.Kind] && c.Plan != "pre_cancelled" && !suspect[v.Kind] {
+		if timing(v) && suspect[v.Kind] < 3 {
 			continue
 		}
 		out = append(out, v)
@@ -1019,7 +1091,7 @@ var known = map[string]func(Case, vk.Violation) bool{
 }
 
 const ruleCommon = "one export per case against a scripted loopback collector; script of 1..7 answers, retry config {disabled, 1ms/5ms backoff with MaxElapsedTime 0/20ms/500ms/5s, 400ms backoff, 10min backoff}, " +
-	"exporter timeout {default, 15s, 100/200ms with held requests}, gzip on/off, plan {none, ctx cancelled before, cancel while attempt K is held, cancel / Shutdown after answer K}; " +
+	"exporter timeout {default, 15s/30s, 100/200ms with held requests}, gzip on/off, plan {none, ctx cancelled before, cancel while attempt K is held, cancel / Shutdown after answer K}; " +
 	"non-trivial = the script contains a retryable answer followed by something; distinct = distinct case encodings"
 
 func TestHTTPRetry(t *testing.T) {
@@ -1027,9 +1099,9 @@ func TestHTTPRetry(t *testing.T) {
 		Property: "C14", Check: "http_retry",
 		Rule: "otlptracehttp / otlpmetrichttp / otlploghttp: answers over {200, 200+partial success, 400, 401, 404, 408, 429, 500, 502, 503, 504, connection closed (FIN/RST), slow, held} x Retry-After {absent, 0, 1, 2, garbage}; " +
 			"Retry-After >= 1 on a retryable answer in ~1/12 of the cases (each costs >= 1 s once the unit defect is repaired); " + ruleCommon,
-		Quick: 150, Thorough: 2400,
+		Quick: 150, Thorough: 1800,
 		Gen: genCase(false), Run: run, Known: known,
-		CaseTimeout: 90 * time.Second, ShrinkTime: 25 * time.Second,
+		CaseTimeout: 90 * time.Second, ShrinkTime: 12 * time.Second,
 	})
 }
 
@@ -1037,8 +1109,8 @@ func TestGRPCRetry(t *testing.T) {
 	vk.Run(t, vk.Spec[Case]{
 		Property: "C14", Check: "grpc_retry",
 		Rule:  "otlptracegrpc / otlpmetricgrpc / otlploggrpc: answers over {OK, OK+partial success, every codes.Code 1..16, slow, held} x RetryInfo {absent, 0, 30ms, 300ms}; " + ruleCommon,
-		Quick: 110, Thorough: 1800,
+		Quick: 110, Thorough: 1300,
 		Gen: genCase(true), Run: run, Known: known,
-		CaseTimeout: 90 * time.Second, ShrinkTime: 25 * time.Second,
+		CaseTimeout: 90 * time.Second, ShrinkTime: 12 * time.Second,
 	})
 }
